@@ -131,6 +131,21 @@ func (x *Exec) staticCall(fr *Frame, ins ssa.Instruction, fn *ssa.Function, bind
 	}
 	nres := fn.Signature.Results().Len()
 	// contract?
+	if x.target != nil && x.target.Extra && x.target.fn == fn && x.curIsHarness() && x.useMode == 0 {
+		// the call under verification of an additional (verification-only) contract
+		saved := x.specDepth
+		x.specDepth = 0
+		pre := st.clone()
+		res, nst := x.callFunction(fn, args, bindings, st)
+		x.specDepth = saved
+		if nst == nil {
+			st.guard = x.w.ts.False()
+			return x.havocResult(st, "noreturn", fn.Signature.Results())
+		}
+		st.heap, st.alloc, st.guard = nst.heap, nst.alloc, nst.guard
+		_ = pre
+		return packResults(res, nres)
+	}
 	if ct := x.eng.contractFor(fn); ct != nil && !(x.specDepth > 0 && len(ct.Ensures) == 0 && x.target != ct) {
 		// (a safety-only contract says nothing about results: specification code
 		// that calls such a function sees its body instead)
